@@ -1289,6 +1289,8 @@ class Big(Family):
             Doc('big-dup-250', self._doc(250, dup=0), 'fault:dup-key'),
             Doc('big-dangling-250', self._doc(250, dangling=True), 'fault:dangling'),
             Doc('big-valid-30', self._doc(30)),
+            # exactly 256 validation errors (an exit status is 8 bits wide)
+            Doc('big-256-errors', self._doc(256).replace(' k="', ' k="x'), 'fault:lexical'),
         ]
 
 
